@@ -4,7 +4,7 @@ from __future__ import annotations
 from pbt import core, dagprop, oracles, specs
 
 LEVEL = 'fault_enumeration'
-RULE = ('DAGs of 2-9 nodes x generated subsets of failing nodes x failure kind {raise ValueError/KeyError/custom Exception, '
+RULE = ('DAGs of 2-9 nodes x generated subsets of failing nodes x failure kind {raise ValueError/KeyError/custom Exception, the exception types labtech itself uses for control flow (IndexError, queue.Empty, StopIteration, TaskNotFound, CacheError, TaskDiedError, LabError, ...), '
         'Exception that cannot be pickled, sys.exit(), custom BaseException, SIGKILL, SIGTERM, os._exit(0) without reporting (process backends and simulated '
         'death under the ControlledRunner)} x strict-reader / non-reading dependents x continue_on_failure in {True, False} x '
         'backends {ControlledRunner, serial, fork, spawn} x progress/monitor displays {off, off, on} x schedules x cache pre-states. Oracle (continue_on_failure=True): '
@@ -55,7 +55,8 @@ def run_job(rec: core.Recorder, job: dict, seed: int) -> None:
         dagprop.run_exhaustive_job(rec, job, judge_obs, failing=True, cached=False)
         return
     eng = job['engine']
-    fail = ['raise:ValueError', 'raise:KeyError', 'raise:CustomErr', 'raise:UnpicklableErr', 'exit', 'baseexc', 'raisefrom']
+    from pbt.universe import vu
+    fail = ['raise:ValueError', 'raise:KeyError', 'raise:CustomErr', 'raise:UnpicklableErr', 'exit', 'baseexc', 'raisefrom'] + vu.CONTROL_FLOW_MODES
     if eng != 'serial':
         fail += ['kill9', 'kill15', 'exit0']
     strat = specs.dag_spec(min_nodes=2, max_nodes=5 if eng == 'spawn' else 9, backends=(eng,), fail_modes=fail, fail_rate=30,
